@@ -6,6 +6,7 @@
    constraints hold on the committed values for this z, or B, B~ are related;
    (3) changing the bases moves it by c_B (B' - B) + c_B~ (B~' - B~) with the first two verification scalars. *)
 Require Import BP.Proofs.IntegrityLemmas.
+Require Import BP.Proofs.IndepLemmas.
 Open Scope F_scope.
 
 Theorem C05_commitments_in_history :
@@ -52,3 +53,33 @@ Theorem C05_changed_bases :
     = (c0 • (B' - B) + c1 • (Bb' - Bb))%M.
 Proof. intros; apply changed_bases. Qed.
 Print Assumptions C05_changed_bases.
+
+(* Under independence of the two Pedersen bases: at the same challenges a changed committed-value part
+   (coefficients or constant) is accepted only if it takes the same value on the committed openings —
+   i.e. only if the committed values satisfy the changed statement too (for this z). *)
+Theorem C05_changed_committed_constraints_rejected :
+  forall (K : FieldOps) (FL : FieldLaws K) (MO : ModOps K) (ML : ModLaws MO) (B Bb : MO) (fw fw' : weights K) (y u x w r : K)
+         (us : list K) (n1 n pn : nat) (Gs Hs : list MO) (vs vbs : list K) (p : r1cs_proof K MO),
+    indep2 B Bb -> r <> f0 -> x <> f0 ->
+    wL fw' = wL fw -> wR fw' = wR fw -> wO fw' = wO fw ->
+    length vs = length (wV fw) -> length vbs = length (wV fw) -> length (wV fw') = length (wV fw) ->
+    let Vs := map2 (fun v vb => (v • B + vb • Bb)%M) vs vbs in
+    check B Bb fw y u x w r us n1 n pn Gs Hs Vs p = m0 ->
+    check B Bb fw' y u x w r us n1 n pn Gs Hs Vs p = m0 ->
+    (wc fw' + ip (wV fw') vs = wc fw + ip (wV fw) vs)%F /\ ip (wV fw') vbs = ip (wV fw) vbs.
+Proof. intros K FL MO ML B Bb fw fw' y u x w r us n1 n pn Gs Hs vs vbs p; apply changed_committed_constraints_rejected. Qed.
+Print Assumptions C05_changed_committed_constraints_rejected.
+
+(* a different blinding base (its verification scalar c1 non-zero), or a different value base (c0 non-zero:
+   the circuit has a gate or a non-trivial evaluation), cannot both satisfy the combined check *)
+Theorem C05_changed_single_base_rejected :
+  forall (K : FieldOps) (FL : FieldLaws K) (MO : ModOps K) (ML : ModLaws MO) (B Bb X : MO) (c0 c1 : K) (rest : list K) (pts : list MO),
+    msm (c0 :: c1 :: rest) ([B; Bb] ++ pts) = m0 ->
+    (c1 <> f0 -> msm (c0 :: c1 :: rest) ([B; X] ++ pts) = m0 -> X = Bb)
+    /\ (c0 <> f0 -> msm (c0 :: c1 :: rest) ([X; Bb] ++ pts) = m0 -> X = B).
+Proof.
+  intros K FL MO ML B Bb X c0 c1 rest pts H. split; intros Hc H'.
+  - eapply changed_blinding_base_rejected; eassumption.
+  - eapply changed_value_base_rejected; eassumption.
+Qed.
+Print Assumptions C05_changed_single_base_rejected.
